@@ -668,6 +668,7 @@ def run(repo, rep, tier):
     _r8_exact_fields(repo, rep)
     _r10_seconds_with_days(repo, rep)
     _r11_fixed_width_fields(repo, rep)
+    _r12_no_equality_test_on_reals(repo, rep)
 
 
 def _r8_exact_fields(repo, rep, rid='C06.R8'):
@@ -966,3 +967,50 @@ def _r11_fixed_width_fields(repo, rep):
     if r11.sites < 2:
         raise AnalysisError('CIMDateTime._to_str: only %d return paths'
                             % r11.sites)
+
+
+def _r12_no_equality_test_on_reals(repo, rep):
+    """C06.R12: the reader does not decide by == / != between two values
+    that can be floating point numbers.  NaN is unequal to itself, so a
+    check like `if converted != parsed: raise` - meant to catch a lossy
+    conversion - rejects the DSP0201 text `NaN`, which the writer produces
+    for real32 / real64 NaN values."""
+    r12 = rep.rule('C06.R12', 'no == / != between two possibly-real values '
+                   'in the numeric reader')
+    tp = repo.cls('pywbem/_tupleparse.py', 'TupleParser')
+    n = 0
+    for name, f in sorted(tp.methods.items()):
+        if not any(isinstance(c, ast.Call) and dotted(c.func) == 'float'
+                   for c in walk_no_nested(f.node)):
+            continue
+        n += 1
+        r12.functions.add(f.fq)
+        real = set()
+        for _ in range(3):
+            for a in walk_no_nested(f.node):
+                if isinstance(a, ast.Assign) and len(a.targets) == 1 and \
+                        isinstance(a.targets[0], ast.Name) and \
+                        isinstance(a.value, ast.Call):
+                    d = dotted(a.value.func) or ''
+                    if d == 'float' or (a.value.args and any(
+                            isinstance(x, ast.Name) and x.id in real
+                            for x in a.value.args)):
+                        real.add(a.targets[0].id)
+        for c in walk_no_nested(f.node):
+            if isinstance(c, ast.Compare) and len(c.ops) == 1 and \
+                    isinstance(c.ops[0], (ast.Eq, ast.NotEq)) and \
+                    isinstance(c.left, ast.Name) and \
+                    isinstance(c.comparators[0], ast.Name) and \
+                    c.left.id in real and c.comparators[0].id in real:
+                r12.sites += 1
+                r12.ob(False, '%s|%s' % (name, norm(c)))
+                rep.finding(r12, f.qualname, norm(c), 'nan-unequal',
+                            'pywbem/_tupleparse.py', c.lineno,
+                            '%s compares two values that are NaN for the '
+                            'text "NaN": NaN != NaN, so the decision taken '
+                            'here treats a valid real32/real64 NaN as a '
+                            'conversion failure' % norm(c))
+    r12.sites += 1
+    r12.ob(n >= 1, 'numeric-readers', {'functions': n})
+    if n < 1:
+        raise AnalysisError('C06.R12: no reader calling float() found')
